@@ -10,7 +10,7 @@ ID = "C12"
 LEVEL = "model_checking"
 RULE = ("tree of four 131073-byte files that share prefix and suffix (two equal, two differing in the middle) plus two "
         "small files, on ext4 (deleted inode numbers are reused at once); events: edits {set content variant (same "
-        "length; also with the new mtime in the past of the old one), append, truncate, rename, delete+recreate, hard-link, create, edit a small file} - every edit advances "
+        "length; also with the new mtime in the past of the old one, and with mtimes before 1970), append, truncate, rename, delete+recreate, hard-link, create, edit a small file} - every edit advances "
         "the file's mtime by 10 ms - and runs `group --cache` with a configuration from {metro, blake3, sha512} x {no transform, "
         "transform cat} x --max-prefix-size {unset, 8192} or with the length-changing transforms `head -c 1000` / `head -c 70000` (same program, different classes), or one command string with and without --in-place, or a run SIGKILLed at 1/4, 1/2, 3/4 of its call history; "
         "ALL histories (edit, run)^d after an initial cache-filling run: quick d=2 over 10 edits x 2 configurations + 5 edits x the (head, head2) switches + 5 x 3 edits under blake3 and sha512 (long digests); "
@@ -31,8 +31,11 @@ EDITS_FULL = [
     # the same-length rewrite again, but the new modification time lies in the PAST of the recorded one
     # (restore from a backup with preserved times, rsync -t --inplace): mtime changes, as the statement requires
     ("set_older", "F2", "V1"), ("set_older", "F3", "V0"),
+    # modification times before 1970 (archives with bogus dates): distinct times, ten milliseconds apart
+    ("set_pre1970", "F2", "V1"), ("set_pre1970", "F2", "V0"),
 ]
-EDITS_QUICK = [e for e in EDITS_FULL if e not in (("set", "F4", "V1"), ("set_older", "F3", "V0"), ("truncate", "F2"))]
+PRE1970 = [("set_pre1970", "F2", "V1"), ("set_pre1970", "F2", "V0")]
+EDITS_QUICK = [e for e in EDITS_FULL if e not in (("set", "F4", "V1"), ("set_older", "F3", "V0"), ("truncate", "F2")) and e not in PRE1970]
 EDITS_D3 = [("set", "F2", "V1"), ("set", "F3", "V0"), ("rename", "F1", "F1r"), ("recreate", "F2", "V1"),
             ("recreate", "F3", "V0"), ("append", "F2"), ("set_older", "F2", "V1")]
 CONFIGS = {
@@ -72,6 +75,11 @@ def cases(tier, seed):
             for e1 in mix:
                 for e2 in mix[:3]:
                     out.append({"history": [[list(e1), cfg], [list(e2), cfg]], "kills": False})
+        # two rewrites of one file, both with modification times before 1970
+        for e1 in PRE1970:
+            for e2 in PRE1970:
+                for cfg in ("metro", "metro_head"):
+                    out.append({"history": [[list(e1), cfg], [list(e2), cfg]], "kills": False})
         # the same transform command with and without --in-place
         for c1, c2 in (("metro_ip_off", "metro_ip_on"), ("metro_ip_on", "metro_ip_off")):
             for e1 in EDITS_QUICK[:2]:
@@ -104,6 +112,7 @@ class World:
         self.sc = sc
         self.clock = 1_600_000_000_000   # ms
         self.past = 1_500_000_000_000    # ms, for edits that move a file's mtime backwards
+        self.pre1970 = -300_000_000_000  # ms, about 1960
         self.paths = {}
         self.reuse = 0
 
@@ -118,6 +127,10 @@ class World:
         self.past -= 10
         os.utime(path, ns=(self.past * 1_000_000, self.past * 1_000_000))
 
+    def tick_pre1970(self, path):
+        self.pre1970 -= 10
+        os.utime(path, ns=(self.pre1970 * 1_000_000, self.pre1970 * 1_000_000))
+
     def write(self, name, data):
         with open(self.p(name), "wb") as f:
             f.write(data)
@@ -127,7 +140,7 @@ class World:
         kind = edit[0]
         name = edit[1]
         p = self.p(name)
-        if kind in ("set", "set_older"):
+        if kind in ("set", "set_older", "set_pre1970"):
             if not os.path.exists(p):
                 return False
             cur = os.path.getsize(p)
@@ -135,7 +148,9 @@ class World:
             data = data + b"A" * (cur - len(data)) if cur > len(data) else data[:cur]
             with open(p, "r+b") as f:
                 f.write(data)
-            if kind == "set_older":
+            if kind == "set_pre1970":
+                self.tick_pre1970(p)
+            elif kind == "set_older":
                 self.tick_back(p)
             else:
                 self.tick(p)
